@@ -90,6 +90,29 @@ def collect():
     return enums, presets, autos, erratum, no_row
 
 
+def declared_members(cls):
+    """(name, int value, token) for each `NAME = (int, "token", ...)` assignment in the enum's class body"""
+    import ast
+    import inspect
+    import textwrap
+
+    try:
+        tree = ast.parse(textwrap.dedent(inspect.getsource(cls)))
+    except (OSError, SyntaxError):
+        return []
+    out = []
+    for node in tree.body[0].body:
+        if isinstance(node, ast.Assign) and len(node.targets) == 1 and isinstance(node.targets[0], ast.Name) and isinstance(node.value, ast.Tuple):
+            el = node.value.elts
+            if len(el) >= 2 and isinstance(el[0], (ast.Constant, ast.UnaryOp)) and isinstance(el[1], ast.Constant):
+                try:
+                    v = ast.literal_eval(el[0])
+                except Exception:
+                    continue
+                out.append((node.targets[0].id, v, el[1].value))
+    return out
+
+
 def listed_dups():
     out = {}
     for e in common.load_known():
@@ -170,6 +193,15 @@ def correspond(ctx):
                 ctx.fail(f"enum-token-not-in-schema:{e['name']}.{m.name}", f"token {tok!r} of {e['name']}.{m.name} is not in {e['schema_types']}",
                          {"enum": e["name"], "member": m.name})
         ctx.count("enum-with-schema" if e["schema"] is not None else "enum-without-schema-enumeration")
+        # every NAME = (value, "token", ...) written in the class body - aliases included - must resolve to a member
+        # carrying that token (two declarations with one integer value silently collapse into an alias)
+        for name, value, tok in declared_members(cls):
+            ctx.case(key=(e["name"], "decl", name)); ctx.count("enum-declared-name")
+            mem = cls.__members__.get(name)
+            if mem is None or (mem.xml_value or "") != (tok or "") or mem.value != value:
+                ctx.fail(f"enum-decl-collapsed:{e['name']}.{name}",
+                         f"{e['name']}.{name} is declared as ({value}, {tok!r}) but resolves to {mem.name if mem is not None else None} "
+                         f"({getattr(mem, 'value', None)}, {getattr(mem, 'xml_value', None)!r})", {"enum": e["name"], "member": name})
     for nm in no_row:
         ctx.fail("autoshape-no-row:" + nm, f"MSO_SHAPE.{nm} has no autoshape_types row", {"member": nm})
     prs = Presentation()
@@ -181,7 +213,11 @@ def correspond(ctx):
             ctx.fail("preset-missing:" + m.name, f"MSO_SHAPE.{m.name} -> prst {prst!r} not in presetShapeDefinitions.xml", {"member": m.name})
         elif [(a, v) for a, v in want] != [(a, v) for a, v in av]:
             ctx.fail("preset-avlst:" + m.name, f"MSO_SHAPE.{m.name} ({prst}) avLst {av} but the standard defines {want}", {"member": m.name})
-        sh = slide.shapes.add_shape(m, 0, 0, 100, 100)
+        try:
+            sh = slide.shapes.add_shape(m, 0, 0, 100, 100)
+        except Exception as e:  # noqa
+            ctx.fail("autoshape-add-raises:" + m.name, f"MSO_SHAPE.{m.name} cannot be added to a slide: {type(e).__name__}: {str(e)[:120]}", {"member": m.name})
+            continue
         got = sh.auto_shape_type
         if got is not m and MSO_SHAPE.from_xml(prst) is m:
             ctx.fail("autoshape-readback:" + m.name, f"added MSO_SHAPE.{m.name}, read back {got}", {"member": m.name})
